@@ -53,6 +53,8 @@ if os.path.exists(J):
     allrows = {tuple(r[:3]): tuple(r) for r in json.load(open(J))}
 for r in rows:
     allrows[tuple(r[:3])] = tuple(r)
+    if r[2] != "-":
+        allrows.pop((r[0], r[1], "-"), None)  # an earlier "does not apply" row of a patch that has since been ported
 json.dump(sorted(allrows.values()), open(J, "w"), indent=0)
 with open(V + "/seeded/REGRESSION.md", "w") as f:
     f.write("# Quick checks against every seeded change (tools/seeded_regress.py)\n\nLast result per (change, patch, check); `quiet (harmless alone)` rows are halves of a two-site change that break nothing alone.\n\n| change | patch | check | result | oracles that fired |\n|---|---|---|---|---|\n")
